@@ -166,6 +166,8 @@ def run(ctx):
             for sc_ in (4.0, 0.5):
                 out2, H2 = LPF(np.cos(2 * np.pi * kc * fs / n * t), BW * sc_, order, fs=fs * sc_, retH=True)
                 law("explicit-fs-rescales-the-grid", out2.signal + 10, out.signal + 10, tol=10 ** 4)
+                out3 = LPF(electrical_signal(np.cos(2 * np.pi * kc * fs / n * t)), BW * sc_, order, fs=fs * sc_)       # a signal object with an explicit rate: same thing
+                law("explicit-fs-rescales-the-grid", out3.signal + 10, out.signal + 10, tol=10 ** 4)
                 law("explicit-fs-rescales-the-grid", np.asarray(H2) + 10, np.asarray(H) + 10, tol=10 ** 4)
             Hs = np.fft.ifftshift(H)                                   # back to FFT order: bin k <-> k*fs/n
             pairs = [[int(round(2 * 20 * math.log10(abs(Hs[k])) * 1000)), int(round(-a * 1000))] for k, a in zip(ks, lad) if a < 60]
